@@ -21,7 +21,7 @@ ID = "C14"
 LEVEL = "model_checking"
 MIN_OUTCOMES = 3
 MANIFEST = {
-    'text': 'All consecutive day pairs 2001..2099 (36,158) for every coherent calendar block (padded, unpadded, glued, prefixed) are rendered through the real bump path and compared; bump-level pairs (old date, new date incl. earlier; quick: old dates of 2001-2029 plus 2038, 2050, 2068-2070, 2099 - thorough: 2001-2099) run through the `test` body; every rejected year/week pairing is shown refused by test and config loader and non-monotone on a witness pair. Exhaustive over the stated date range - transitivity of the order extends consecutive pairs to all pairs.',
+    'text': 'All consecutive day pairs 2001..2099 (36,158) for every coherent calendar block (padded, unpadded, glued, prefixed) are rendered through the real bump path and compared; bump-level pairs (old date, new date incl. earlier; quick: old dates of 2001-2029 plus 2038, 2050, 2068-2070, 2099 - thorough: 2001-2099) run through the `test` body; a VCS section in which config and newest tag straddle a 9->10 / 99->100 step of a calendar part and the bump date lies before the true current version; every rejected year/week pairing is shown refused by test and config loader and non-monotone on a witness pair. Exhaustive over the stated date range - transitivity of the order extends consecutive pairs to all pairs.',
     'note': 'two-digit years wrap after 2099 by design; platform strftime (glibc) supplies week numbers',
     'technique': 'explicit-state exploration: exhaustive enumeration of the date-successor relation on the real bump path, invariant per edge',
 }
